@@ -313,9 +313,25 @@ func varInitBytes(c *Ctx, pkgShort, name string) []byte {
 }
 
 func c14R4(c *Ctx, r *Report, rule string) {
-	r.rule(rule, "every netip.Addr passed to (netip.Prefix).Contains in matcher-reachable code originates only from netip.ParseAddr/MustParseAddr, netip.AddrFrom4 or (netip.Addr).Unmap", 4)
+	r.rule(rule, "every netip.Addr passed to (netip.Prefix).Contains in matcher-reachable code originates only from netip.ParseAddr/MustParseAddr, netip.AddrFrom4 or (netip.Addr).Unmap (helper parameters are followed to what the callers pass); both IP matchers reach such a test", 4)
 	okSrc := map[string]bool{"net/netip.ParseAddr": true, "net/netip.MustParseAddr": true, "net/netip.AddrFrom4": true, "(net/netip.Addr).Unmap": true}
 	reach := c.matcherReach()
+	hasContains := map[*ssa.Function]bool{}
+	defer func() {
+		// the anchors are the two IP matchers, not a number of call sites (loops may be shared through a helper)
+		for _, m := range []string{"layer4.(*MatchRemoteIP).Match", "layer4.(*MatchLocalIP).Match"} {
+			mf := c.Fn(m)
+			found := false
+			if mf != nil {
+				for f := range c.reach([]*ssa.Function{mf}) {
+					if hasContains[f] {
+						found = true
+					}
+				}
+			}
+			r.check(found, rule, m, "reaches a range test", "-", "the matcher tests the address against its ranges", "no (netip.Prefix).Contains is reachable from the matcher: anchor not found")
+		}
+	}()
 	for _, fn := range sortedFuncs(reach) {
 		n := 0
 		for _, ci := range callsIn(fn) {
@@ -325,6 +341,7 @@ func c14R4(c *Ctx, r *Report, rule string) {
 			n++
 			arg := ci.Common().Args[1]
 			bad := c14AddrOrigins(c, fn, arg, okSrc, 0)
+			hasContains[fn] = true
 			r.check(len(bad) == 0, rule, fname(fn), fmt.Sprintf("Contains#%d", n), c.ipos(ci), "address is in canonical (unmapped) form", "the address tested against the configured ranges can be an IPv4-mapped IPv6 address (origin: "+strings.Join(bad, ", ")+"): an IPv4 peer on a dual-stack listener then matches no IPv4 range")
 		}
 	}
@@ -355,6 +372,18 @@ func c14AddrOrigins(c *Ctx, fn *ssa.Function, v ssa.Value, okSrc map[string]bool
 		case "const":
 			// zero Addr{} on error paths
 		case "param":
+			// an unexported helper all of whose callers are known: what the callers pass
+			par, _ := o.V.(*ssa.Parameter)
+			sites, escapes := c.callSitesOf(fn)
+			if par != nil && !token.IsExported(fn.Name()) && !escapes && len(sites) > 0 && depth < 3 {
+				idx := paramIndex(fn, par)
+				for _, cs := range sites {
+					if idx >= 0 && idx < len(cs.Common().Args) {
+						bad = append(bad, c14AddrOrigins(c, cs.Parent(), cs.Common().Args[idx], okSrc, depth+1)...)
+					}
+				}
+				continue
+			}
 			bad = append(bad, "parameter "+o.Desc+" of "+fname(fn))
 		default:
 			if o.Kind == "alloc" || o.Kind == "other" {
